@@ -8,6 +8,7 @@ import (
 	"bytes"
 	"net/http"
 	"regexp"
+	"regexp/syntax"
 	"strconv"
 	"strings"
 
@@ -349,7 +350,7 @@ func constructMatchStyleRegex(s *Segment) (*regexp.Regexp, []string, error) {
 
 			binds = append(binds, p.Ident)
 			buf.WriteString("(")
-			buf.WriteString(*p.Value.Regex)
+			buf.WriteString(nonCapturing(*p.Value.Regex))
 			buf.WriteString(")")
 		}
 	}
@@ -369,6 +370,30 @@ func constructMatchStyleRegex(s *Segment) (*regexp.Regexp, []string, error) {
 		return nil, nil, errors.Wrapf(err, "compile regexp near position %d", s.Pos.Offset)
 	}
 	return re, binds, nil
+}
+
+// nonCapturing rewrites the capturing groups of the expression to non-capturing
+// ones, because sub-matches are paired with bind parameters by position and only
+// the group added for each bind parameter may count. The expression is returned
+// as is when it has no capturing group or cannot be parsed (the error is
+// reported when the whole regexp is compiled).
+func nonCapturing(expr string) string {
+	re, err := syntax.Parse(expr, syntax.Perl)
+	if err != nil || re.MaxCap() == 0 {
+		return expr
+	}
+
+	var strip func(re *syntax.Regexp) *syntax.Regexp
+	strip = func(re *syntax.Regexp) *syntax.Regexp {
+		for re.Op == syntax.OpCapture {
+			re = re.Sub[0]
+		}
+		for i, sub := range re.Sub {
+			re.Sub[i] = strip(sub)
+		}
+		return re
+	}
+	return strip(re).String()
 }
 
 // getParentBindSet returns a set of all bind parameters defined in parent
